@@ -302,8 +302,8 @@ impl AssemblyCode {
                 match &second {
                     None => return removed_instructions,
                     Some(AsmLine::Instruction(_)) => break,
-                    Some(AsmLine::Label(_)) => {
-                        // If this is a label, restart
+                    Some(AsmLine::Label(_)) | Some(AsmLine::Inline(_, _)) => {
+                        // If this is a label (or opaque inline assembler), restart
                         first = iter.next();
                         loop {
                             match &first {
